@@ -386,10 +386,8 @@ func runC05(c c05Case) *Violation {
 				conn.Close()
 				return viol("c05/reached-without-confirmation/"+r.Auth, "the request reached the tunnel handler although the authentication backend confirmed nothing for it: %s", desc)
 			}
-			if !expectReach {
-				conn.Close()
-				return viol("c05/reached-unexpectedly/"+r.Auth, "the request reached the tunnel handler: %s", desc)
-			}
+			// reaching the handler with backend-confirmed credentials is never a violation, even for spellings the
+			// reference treats as non-canonical (e.g. the valid header being the second of two lines)
 		} else if expectReach {
 			return viol("c05/valid-credentials-refused/"+r.Auth, "correct credentials of an enabled scheme did not reach the tunnel handler: %s", desc)
 		}
